@@ -2,7 +2,8 @@
 Oracle: implementation (read_and_cut_str with the RegexBag main builds for -c) vs the executed
 specification over `utf8Chars`; independent check that the output decodes as UTF-8.  This also
 validates the model of the regex `\\b|\\B` (every scalar boundary) against the real engine."""
-from cases import evaluate, run_corpus, normalise_field_case
+from cases import evaluate, run_corpus, normalise_field_case, cli_roundtrip
+from common import build_tuc
 from common import case_line, parse_result
 from gen import rand_bounds
 
@@ -35,6 +36,8 @@ def run(chk):
     for c in cases[:4]:
         chk.sample(case_line(c))
     lines, impl, _ = evaluate(chk, cases, "K-chars", spec=True)
+    # the regex bag itself is built by main (src/bin/tuc.rs): the real binary, end to end, on -c command lines
+    cli_roundtrip(chk, build_tuc(release=False), 3000 if chk.tier == "quick" else 30000, want=lambda a: "-c" in a)
     for l, i in zip(lines, impl):
         st, out = parse_result(i)
         if st in ("ok", "fail"):
